@@ -63,7 +63,7 @@ func zzH15_roundtrip_rune() {
 	case 2:
 		s = zzString("pre", 1) + s
 	}
-	b := zzBool("bytesmode")
+	b := zzChoice("bytesmode", zzParam("modes", 1, 2)) == 1 // quick: string mode only
 	q := Quote(s, b)
 	got, triple, isByte, err := unquote(q)
 	valid := zzValidUTF8(s)
@@ -138,7 +138,7 @@ func zzCheckUnquote(body string, tag string, npfx, nquot int) {
 func zzH15_unquote_free() {
 	maxk := zzParam("maxbody", 2, 3)
 	k := zzChoice("k", maxk+1)
-	zzCheckUnquote(zzString("body", k), "free", 4, zzParam("quotings", 3, 4))
+	zzCheckUnquote(zzString("body", k), "free", 4, zzParam("quotings", 2, 4))
 	zzReach("end")
 }
 
@@ -158,7 +158,7 @@ func zzH15_unquote_hex() {
 	digs := zzBytes("d", nd)
 	anyPos := -1
 	if form != 3 {
-		anyPos = []int{-1, 0, nd - 1}[zzChoice("anypos", 3)]
+		anyPos = []int{-1, nd - 1, 0}[zzChoice("anypos", zzParam("anypos", 2, 3))]
 	}
 	upper := zzParam("uppercase", 0, 1) == 1
 	for i := 0; i < nd; i++ {
